@@ -48,10 +48,10 @@ fn rel(v: &MVer, r: &MRange) -> String {
 }
 
 fn class_tag(r: &MRange) -> &'static str {
-    if r.has_build() {
-        "build-metadata"
-    } else if !r.nonempty() {
+    if !r.nonempty() {
         "empty-range"
+    } else if r.has_build() {
+        "build-metadata"
     } else {
         ""
     }
@@ -98,7 +98,7 @@ fn check_membership(rep: &mut Report, r: &MRange, probes: &[MVer], ctx: &serde_j
                 continue;
             }
         };
-        let tagged = if v.has_build() { "build-metadata" } else { class_tag(r) };
+        let tagged = if !r.nonempty() { "empty-range" } else if v.has_build() { "build-metadata" } else { class_tag(r) };
         rep.eval(format!("member|{}|{}|{}{}", r.kind(), rel(v, r), want, if tagged.is_empty() { String::new() } else { format!("|{tagged}") }));
         if got != want {
             let what = if want { "member-not-served" } else { "non-member-served" };
@@ -134,10 +134,12 @@ fn real_conflict(r1: &MRange, r2: &MRange) -> Result<bool, String> {
 
 fn check_conflict(rep: &mut Report, r1: &MRange, r2: &MRange, ctx: &serde_json::Value) {
     let want = r1.intersects(r2);
-    let tagged = if r1.has_build() || r2.has_build() {
-        "build-metadata"
-    } else if !r1.nonempty() || !r2.nonempty() {
+    // the empty range (F4) takes precedence as a class tag, also when its bound
+    // additionally carries build metadata
+    let tagged = if !r1.nonempty() || !r2.nonempty() {
         "empty-range"
+    } else if r1.has_build() || r2.has_build() {
+        "build-metadata"
     } else {
         ""
     };
